@@ -58,6 +58,8 @@ type UnitRun struct {
 	maxPaths int
 	assumps  map[string]bool
 	paramVal map[string]Val
+	callees  map[string]bool
+	retHook  func(*State, []Val)
 }
 
 type resultVar struct {
@@ -69,7 +71,7 @@ type resultVar struct {
 func newUnitRun(p *Program, u *Unit) *UnitRun {
 	r := &UnitRun{prog: p, unit: u, info: u.Pkg.TypesInfo, decls: newDecls(), needs: map[string]bool{},
 		siteOrd: map[ast.Node]int{}, loopOrd: map[ast.Stmt]int{}, retOrd: map[*ast.ReturnStmt]int{}, callOrd: map[*ast.CallExpr]int{},
-		varUnit: map[types.Object]*Unit{}, maxPaths: 4000, assumps: map[string]bool{}, paramVal: map[string]Val{}}
+		varUnit: map[types.Object]*Unit{}, maxPaths: 4000, assumps: map[string]bool{}, paramVal: map[string]Val{}, callees: map[string]bool{}}
 	return r
 }
 
@@ -382,6 +384,7 @@ func (r *UnitRun) toTerm(st *State, v Val, t types.Type) string {
 		f := r.fresh("fn_"+strings.ReplaceAll(v.Fn.unit.Name, "#", "_"), "Fn")
 		st.assume(not(eq(f, "nil_Fn")))
 		v.Fn.term = f
+		r.pureClosureAxioms(st, v.Fn.unit, f)
 		if cu := v.Fn.unit; cu.Source != "" || cu.Target != "" {
 			r.bindEdgeGhost(st, cu, f)
 			// static preconditions of an escaping closure are checked where it is created
@@ -772,4 +775,127 @@ func (r *UnitRun) ptrTypeByName(name string) types.Type {
 		return types.NewPointer(t)
 	}
 	panic(toolLimit("no struct type " + name))
+}
+
+// pureClosureAxioms: for a function literal over float64 / *CPUTensor parameters with one float64 result and no loops,
+// the value semantics is obtained by symbolically executing its body:  forall args. pathcond => app(f, args) = result.
+func (r *UnitRun) pureClosureAxioms(st *State, u *Unit, f string) {
+	if u == nil || u.Lit == nil || u.Sig.Results().Len() != 1 {
+		return
+	}
+	rb, ok := types.Unalias(u.Sig.Results().At(0).Type()).Underlying().(*types.Basic)
+	if !ok || rb.Info()&types.IsFloat == 0 {
+		return
+	}
+	var sorts []string
+	for i := 0; i < u.Sig.Params().Len(); i++ {
+		pt := types.Unalias(u.Sig.Params().At(i).Type())
+		if b, ok := pt.Underlying().(*types.Basic); ok && b.Info()&types.IsFloat != 0 {
+			sorts = append(sorts, "Real")
+		} else if isTensorType(pt) {
+			sorts = append(sorts, "T")
+		} else {
+			return
+		}
+	}
+	hasLoop := false
+	ast.Inspect(u.Body, func(n ast.Node) bool {
+		switch n.(type) {
+		case *ast.ForStmt, *ast.RangeStmt:
+			hasLoop = true
+		}
+		return true
+	})
+	if hasLoop || len(sorts) == 0 {
+		return
+	}
+	app := "app_" + strings.Join(sorts, "_")
+	r.prog.World.decls.declare(app, fmt.Sprintf("(declare-fun %s (Fn %s) Real)", app, strings.Join(sorts, " ")))
+	sub := st.clone()
+	n0 := len(sub.facts)
+	b0 := len(sub.branch)
+	var binders, args []string
+	for i := 0; i < u.Sig.Params().Len(); i++ {
+		pv := u.Sig.Params().At(i)
+		qcount++
+		name := fmt.Sprintf("%s!q%d", sanitize(pv.Name()), qcount)
+		binders = append(binders, fmt.Sprintf("(%s %s)", name, sorts[i]))
+		args = append(args, name)
+		if sorts[i] == "Real" {
+			sub.bind(pv, Val{K: KReal, T: name, Go: pv.Type()})
+		} else {
+			sub.bind(pv, Val{K: KRef, T: name, Sort: "T", Go: pv.Type()})
+		}
+	}
+	var cases []string
+	declMark := len(r.decls.order)
+	savedHook, savedObls, savedUnit, savedInfo := r.retHook, r.obls, r.unit, r.info
+	savedSite, savedLoop, savedRet, savedCall, savedRes := r.siteOrd, r.loopOrd, r.retOrd, r.callOrd, r.results
+	r.unit, r.info = u, u.Pkg.TypesInfo
+	r.siteOrd, r.loopOrd, r.retOrd, r.callOrd = map[ast.Node]int{}, map[ast.Stmt]int{}, map[*ast.ReturnStmt]int{}, map[*ast.CallExpr]int{}
+	r.results = nil
+	r.numberSites()
+	r.retHook = func(s2 *State, vals []Val) {
+		isBranch := map[string]bool{}
+		for _, c := range s2.branch[b0:] {
+			isBranch[c] = true
+		}
+		var assumed []string
+		for _, c := range s2.facts[n0:] {
+			if !isBranch[c] {
+				assumed = append(assumed, c)
+			}
+		}
+		pc := and(s2.branch[b0:]...)
+		cases = append(cases, implies(pc, and(append(assumed, eq(sx(app, append([]string{f}, args...)...), toReal(vals[0])))...)))
+	}
+	func() {
+		defer func() {
+			r.retHook, r.unit, r.info = savedHook, savedUnit, savedInfo
+			r.siteOrd, r.loopOrd, r.retOrd, r.callOrd, r.results = savedSite, savedLoop, savedRet, savedCall, savedRes
+			// safety obligations inside the literal belong to the literal's own unit, not to the creation site
+			r.obls = savedObls
+		}()
+		r.execBlock(sub, u.Body, func(*State) {})
+	}()
+	if len(cases) == 0 {
+		return
+	}
+	body := and(cases...)
+	// symbols created while executing the body depend on the arguments: turn them into Skolem functions of the binders
+	for _, name := range r.decls.order[declMark:] {
+		d := r.decls.text[name]
+		pre := "(declare-fun " + name + " () "
+		if !strings.HasPrefix(d, pre) {
+			continue
+		}
+		srt := strings.TrimSuffix(strings.TrimPrefix(d, pre), ")")
+		r.decls.text[name] = fmt.Sprintf("(declare-fun %s (%s) %s)", name, strings.Join(sorts, " "), srt)
+		body = replaceToken(body, name, "("+name+" "+strings.Join(args, " ")+")")
+	}
+	st.assume(fmt.Sprintf("(forall (%s) (! %s :pattern ((%s %s))))", strings.Join(binders, " "), body, app, strings.Join(append([]string{f}, args...), " ")))
+}
+
+// replaceToken replaces whole-token occurrences of name in an s-expression string.
+func replaceToken(s, name, by string) string {
+	var b strings.Builder
+	for i := 0; i < len(s); {
+		j := strings.Index(s[i:], name)
+		if j < 0 {
+			b.WriteString(s[i:])
+			break
+		}
+		j += i
+		end := j + len(name)
+		leftOK := j == 0 || s[j-1] == ' ' || s[j-1] == '('
+		rightOK := end == len(s) || s[end] == ' ' || s[end] == ')'
+		b.WriteString(s[i:j])
+		if leftOK && rightOK {
+			b.WriteString(by)
+		} else {
+			b.WriteString(name)
+		}
+		i = end
+	}
+	return b.String()
 }
